@@ -249,7 +249,7 @@ def main(modname):
     ev.setdefault("coverage", {})["known_findings_hit"] = sorted({k for k, _, _ in known_hits})
     _agg = aggregate(results)[0]
     ev["coverage"]["cross_solver"] = {"queries_re_asked_of_cvc5": _agg["cross_checked"], "agree": _agg["cross_agree"], "cvc5_unknown_or_timeout": _agg["cross_unknown"],
-                                      "not_parsed": _agg["cross_error"], "note": "the first 5 (quick) / 25 (thorough) quickly decided queries of every job are re-asked of cvc5 1.4; a definite disagreement ends the check with exit 2"}
+                                      "not_parsed": _agg["cross_error"], "note": "the first 3 (quick) / 20 (thorough) quickly decided queries of every job are re-asked of cvc5 1.4 (separate process, hard time limit); a definite disagreement ends the check with exit 2"}
     ev["coverage"]["inconclusive"] = len(problems)
     ev["coverage"]["counterexample_candidates"] = len(pending_cex)
     evdir = os.environ.get("VERIF_EVIDENCE_DIR") or os.path.join(ROOT, "evidence")
